@@ -471,7 +471,9 @@ ArrayPrim ==
          THEN /\ out' = out \o LE(Len(payload), 4) \o payload
               /\ regions' = Append(regions, [from |-> Len(out) + 5, to |-> Len(out) + 4 + Len(payload)])
               /\ stack' = Bump(stack) /\ fi' = fi + 1
-              /\ UNCHANGED <<root, prof, scopes, sizepos, sizew, phase, note, ev>>
+              /\ ev' = ev \o <<[n |-> Ins.name \o ".decompressed_size", at |-> Len(out), len |-> 4, k |-> "size", tid |-> 0],
+                               [n |-> Ins.name, at |-> Len(out) + 4, len |-> Len(payload), k |-> "array", tid |-> 0]>>
+              /\ UNCHANGED <<root, prof, scopes, sizepos, sizew, phase, note>>
          ELSE Emit(payload, Bump(stack), scopes)
 
 ArrayBegin ==
@@ -689,7 +691,9 @@ C04SizeFaults ==
 C03Patterns(w) == {Rep(0, w), Rep(255, w), <<1>> \o Rep(0, w - 1), Rep(255, w - 1) \o <<127>>, <<2>> \o Rep(0, w - 1)}
 
 C03Faults ==
-    IF ~PlainBody THEN {FaultBase("garbage", "tail", HeaderFor(Len(Body) + 3), Body \o <<255, 0, 7>>, "any", <<>>)}
+    IF ~PlainBody
+    THEN {FaultBase("set", "decompressed_size", Header, SetField(Body, [at |-> 0, len |-> 4], v), "any", v) :
+            v \in C03Patterns(4)}
     ELSE LET b == Body IN
          UNION {{FaultBase("set", ev[j].n, Header, SetField(b, ev[j], v), "any", v) :
                     v \in (IF ev[j].len = 0 THEN {} ELSE C03Patterns(ev[j].len))} : j \in 1..Len(ev)}
